@@ -172,7 +172,7 @@ private:
         JSONCONS_VISITOR_RETURN;
     }
 
-    JSONCONS_VISITOR_RETURN_TYPE visit_end_object(const ser_context&, std::error_code&) final
+    JSONCONS_VISITOR_RETURN_TYPE visit_end_object(const ser_context&, std::error_code& ec) final
     {
         JSONCONS_ASSERT(!stack_.empty());
         --nesting_depth_;
@@ -180,6 +180,11 @@ private:
         buffer_.push_back(0x00);
 
         std::size_t length = buffer_.size() - stack_.back().offset();
+        if (length > static_cast<std::size_t>((std::numeric_limits<int32_t>::max)()))
+        {
+            ec = bson_errc::number_too_large; // the length of a BSON document is an int32
+            JSONCONS_VISITOR_RETURN;
+        }
         binary::native_to_little(static_cast<uint32_t>(length), buffer_.begin()+stack_.back().offset());
 
         stack_.pop_back();
@@ -214,7 +219,7 @@ private:
         JSONCONS_VISITOR_RETURN;
     }
 
-    JSONCONS_VISITOR_RETURN_TYPE visit_end_array(const ser_context&, std::error_code&) final
+    JSONCONS_VISITOR_RETURN_TYPE visit_end_array(const ser_context&, std::error_code& ec) final
     {
         JSONCONS_ASSERT(!stack_.empty());
         --nesting_depth_;
@@ -222,6 +227,11 @@ private:
         buffer_.push_back(0x00);
 
         std::size_t length = buffer_.size() - stack_.back().offset();
+        if (length > static_cast<std::size_t>((std::numeric_limits<int32_t>::max)()))
+        {
+            ec = bson_errc::number_too_large; // the length of a BSON document is an int32
+            JSONCONS_VISITOR_RETURN;
+        }
         binary::native_to_little(static_cast<uint32_t>(length), buffer_.begin()+stack_.back().offset());
 
         stack_.pop_back();
